@@ -170,6 +170,23 @@ where
     }
 }
 
+/// `RefCell<S>` as a service, used by a caller that holds a `borrow()` guard across the call
+struct HeldBorrow(Rc<RefCell<H>>);
+
+impl Service<u32> for HeldBorrow {
+    type Response = u32;
+    type Error = u32;
+    type Future = BF<Result<u32, u32>>;
+    fn poll_ready(&self, cx: &mut std::task::Context<'_>) -> std::task::Poll<Result<(), u32>> {
+        let _guard = self.0.borrow();
+        Service::poll_ready(&*self.0, cx)
+    }
+    fn call(&self, req: u32) -> Self::Future {
+        let _guard = self.0.borrow();
+        Box::pin(Service::call(&*self.0, req))
+    }
+}
+
 fn split<S>(s: S) -> H
 where
     S: Service<u32, Response = u32, Error = u32> + Clone + 'static,
@@ -205,7 +222,9 @@ pub fn build_t(t: &T, w: &W) -> H {
         T::RcService(t) => erase(boxed::rc_service(build_t(t, w))),
         T::Rc(t) => erase(Rc::new(build_t(t, w))),
         T::Boxed(t) => erase(Box::new(build_t(t, w))),
-        T::RefCell(t) => erase(RefCell::new(build_t(t, w))),
+        // the caller keeps a shared borrow of the cell alive while it calls through it (calling a
+        // service needs `&self` only)
+        T::RefCell(t) => erase(HeldBorrow(Rc::new(RefCell::new(build_t(t, w))))),
         T::Split(t) => match &**t {
             T::AndThen(a, b) => split(build_t(a, w).and_then(build_t(b, w))),
             T::Map { id, f, t: inner } => {
